@@ -450,6 +450,8 @@ structure ONode where
   present : Bool
   specified : Bool
   val : OVal
+  /-- the node's own name as spelled in the live tree, when that is known -/
+  spell : Option Bytes := none
   deriving Repr, DecidableEq, Inhabited
 
 def lowerName (n : Bytes) : Bytes := n.map Bytes.lower
@@ -521,20 +523,20 @@ def canonView (regs : List Reg) (prev : ParsedMap) : Nat → List Bytes → List
         let r := regFor regs p 0
         let (sub, d) : Nat × Option Bytes := match r with | some (.str s d) => (s, d) | _ => (0, none)
         let v : Option Bytes := match f with | some (.str _ v) => some v | _ => d
-        [⟨lp, 0, f.isSome, r.isSome, .str v d sub (typedExp prev lp sub v)⟩]
+        [⟨lp, 0, f.isSome, r.isSome, .str v d sub (typedExp prev lp sub v), none⟩]
       | 1 =>
         let r := regFor regs p 1
         let (dh, ds) : Option Bytes × Option Bytes := match r with | some (.pair a b) => (a, b) | _ => (none, none)
         let (h, s) : Option Bytes × Option Bytes := match f with | some (.pair _ a b) => (some a, some b) | _ => (dh, ds)
-        [⟨lp, 1, f.isSome, r.isSome, .pair h s dh ds⟩]
+        [⟨lp, 1, f.isSome, r.isSome, .pair h s dh ds, none⟩]
       | 2 =>
         let r := regFor regs p 2
         let d : List Bytes := match r with | some (.list d) => d | _ => []
         let v : List Bytes := match f with | some (.list _ xs) => xs | _ => d
-        [⟨lp, 2, f.isSome, r.isSome, .list v d⟩]
+        [⟨lp, 2, f.isSome, r.isSome, .list v d, none⟩]
       | _ =>
         let kids : List CNode := match f with | some (.obj _ ks) => ks | _ => []
-        ⟨lp, 3, f.isSome, objRegistered regs p, .obj⟩ :: canonView regs prev fuel p kids
+        ⟨lp, 3, f.isSome, objRegistered regs p, .obj, none⟩ :: canonView regs prev fuel p kids
 
 /-- the value whose change must be notified -/
 inductive EffVal where
@@ -545,12 +547,17 @@ inductive EffVal where
   | members (keys : List (Bytes × Nat))
   deriving Repr, DecidableEq, Inhabited
 
+/-- the direct children of an object in a view -/
+def kidsOfView (view : List ONode) (n : ONode) : List ONode :=
+  view.filter fun m => m.path.length == n.path.length + 1 && m.path.take n.path.length == n.path
+
+/-- an object's membership is the list of its children's keys *as spelled*: an entry the
+    new file spells differently is a different member (names only compare ignoring case) -/
 def effVal (view : List ONode) (n : ONode) : EffVal :=
   match n.val with
   | .str v _ sub p => if sub == 0 || sub == 3 then .text v else .num p
   | .pair h s _ _ => .pair (h.map lowerName) (s.map lowerName)
   | .list v _ => .items v
-  | .obj => .members ((view.filter fun m => m.path.length == n.path.length + 1 && m.path.take n.path.length == n.path).map
-      fun m => (m.path.getLast?.getD [], m.kind))
+  | .obj => .members ((kidsOfView view n).map fun m => (m.spell.getD (m.path.getLast?.getD []), m.kind))
 
 end Iauthd.Conf.Spec
